@@ -15,10 +15,19 @@ def _slots(obj: Any) -> list[str]:
     return names
 
 
-def same(a: Any, b: Any, depth: int = 0) -> bool:
+def same(a: Any, b: Any, depth: int = 0, _seen: set[tuple[int, int]] | None = None) -> bool:
     """a == b, or equal type and recursively equal slots/dict; NaN equals NaN."""
     if depth > 8:
         return bool(a == b)
+    if _seen is None:
+        _seen = set()
+    if not isinstance(a, (int, float, str, bytes, type(None))):
+        # a pair of objects already being compared (or compared) in this call is not walked again: shared members
+        # (enum classes, module-level tables) would otherwise be re-walked once per path, which is exponential in the depth
+        key = (id(a), id(b))
+        if key in _seen:
+            return True
+        _seen.add(key)
     if isinstance(a, float) and isinstance(b, float):
         return (math.isnan(a) and math.isnan(b)) or a == b
     if type(a) is not type(b):
@@ -28,9 +37,9 @@ def same(a: Any, b: Any, depth: int = 0) -> bool:
         except Exception:  # noqa: BLE001
             return False
     if isinstance(a, (list, tuple)):
-        return len(a) == len(b) and all(same(x, y, depth + 1) for x, y in zip(a, b))
+        return len(a) == len(b) and all(same(x, y, depth + 1, _seen) for x, y in zip(a, b))
     if isinstance(a, dict):
-        return a.keys() == b.keys() and all(same(a[k], b[k], depth + 1) for k in a)
+        return a.keys() == b.keys() and all(same(a[k], b[k], depth + 1, _seen) for k in a)
     has_eq = type(a).__eq__ is not object.__eq__
     if has_eq:
         try:
@@ -46,12 +55,12 @@ def same(a: Any, b: Any, depth: int = 0) -> bool:
     for n in names:
         if hasattr(a, n) != hasattr(b, n):
             return False
-        if hasattr(a, n) and not same(getattr(a, n), getattr(b, n), depth + 1):
+        if hasattr(a, n) and not same(getattr(a, n), getattr(b, n), depth + 1, _seen):
             return False
     if d is not None:
         d2 = getattr(b, "__dict__", {})
         if d.keys() != d2.keys():
             return False
-        if not all(same(d[k], d2[k], depth + 1) for k in d):
+        if not all(same(d[k], d2[k], depth + 1, _seen) for k in d):
             return False
     return True
